@@ -70,7 +70,18 @@ func hostileFields(t *Tape, seq int, sender, target string) (typ string, fs []Fi
 	groups := [][2]int{{146, 55}, {267, 269}, {268, 269}, {627, 628}, {384, 372}, {454, 455}, {711, 311}, {555, 600}}
 	n := t.Draw(8)
 	for i := 0; i < n; i++ {
-		switch t.Pick(4, 4, 2, 2, 2, 2, 2, 2, 2, 1, 1, 3) {
+		switch t.Pick(4, 4, 2, 2, 2, 2, 2, 2, 2, 1, 1, 3, 2) {
+		case 12: // a counter followed by something that is not a field (no '='), cut off by the next entry or group
+			g := groups[t.Draw(len(groups))]
+			junk := Field{Tag: []string{"noequals", "x", "55", ""}[t.Draw(4)], Raw: true}
+			switch t.Draw(3) {
+			case 0: // nested counter + junk inside an entry that is not the last one
+				fs = append(fs, FI(146, 2), F(55, word(t)), FI(711, 1+t.Draw(2)), junk, F(55, word(t)))
+			case 1: // an outer group whose first entry starts with a counter + junk
+				fs = append(fs, FI(g[0], 2), FI(g[0], 1), FI(711, 1+t.Draw(2)), junk, FI(g[0], 2))
+			default:
+				fs = append(fs, FI(g[0], 1+t.Draw(2)), junk, F(g[1], word(t)))
+			}
 		case 11: // the text of a group counter tag ahead of the genuine group, not at a field start
 			g := groups[t.Draw(len(groups))]
 			switch t.Draw(3) {
